@@ -1608,6 +1608,8 @@ def validate(prop, rng, n_per_fn, res):
             and all(common.TRANSLATION_STATUS.get(f, {}).get("translated") for f in
                     ("find_dependencies", "update_recursive", "DelayFixed_with_delay", "DelayToPull_with_delay", "DelayToPush_with_delay")):
         validate_sched_heap(rng, max(6, n_per_fn // 3), res)
+    if prop == "C14" and os.path.exists(TRDRIVER):
+        validate_gridmemo(rng, max(60, n_per_fn), res)
     if prop == "C18" and os.path.exists(TRDRIVER):
         validate_maskrules(rng, max(600, 6 * n_per_fn), res)
     if prop == "C15" and os.path.exists(TRDRIVER):
@@ -1829,6 +1831,77 @@ def validate_sched_heap(rng, n_specs, res, max_steps=10):
         except Exception:  # noqa
             pass
     res.extra["translation_validation_object_graphs"] = stats
+
+
+def validate_gridmemo(rng, n_grids, res):
+    """live `RectilinearGrid` / `UniformGrid` / `EsriGrid` objects under random histories of `data_shape` / `data_size`
+    reads and `data_location` assignments (valid and invalid ones): before every access the memo attributes are read from
+    the object, `super().data_shape` / `super().data_size` are computed on a deep copy, and the translated method's answer
+    and new attributes are compared with what the real access returns and leaves"""
+    import copy
+
+    from finam.data.grid_base import Grid, StructuredGrid
+
+    from . import gridutil as gu
+
+    names = ("RectilinearGrid_data_shape", "RectilinearGrid_data_size", "RectilinearGrid_set_data_location")
+    if not all(common.TRANSLATION_STATUS.get(f, {}).get("translated") for f in names):
+        return
+    LOC = {fm.Location.CELLS: 0, fm.Location.POINTS: 1}
+    LOCS = [fm.Location.CELLS, fm.Location.POINTS]
+    stats = {"grids": 0, "reads_shape": 0, "reads_size": 0, "sets": 0, "rejected_sets": 0, "memo_hits": 0, "mismatch": 0}
+    shp = lambda t: None if t is None else [int(x) for x in t]  # noqa
+    reqs, expect = [], []
+    for _ in range(n_grids):
+        d = rng.randint(1, 3)
+        dims = [rng.randint(1, 4) for _ in range(d)]
+        order, rev, inc = rng.choice(list(gu.layouts(d)))
+        kind = rng.choice(["uniform", "rect", "esri"])
+        if kind == "esri":
+            spec = {"kind": "esri", "ncols": rng.randint(1, 4), "nrows": rng.randint(1, 4), "cellsize": 1, "xll": 0, "yll": 0, "order": order}
+        else:
+            spec = gu.make_spec(kind, dims, order, rev, inc, rng.choice(["cells", "points"]))
+        try:
+            g = gu.build_grid(spec)
+        except Exception:  # noqa
+            continue
+        stats["grids"] += 1
+        valid = [LOC[l] for l in g.valid_locations]
+        for _ in range(rng.randint(3, 8)):
+            op = rng.choice(["shape", "shape", "size", "set", "set"])
+            before = {"shape": shp(g._data_shape), "size": None if g._data_size is None else int(g._data_size), "loc": LOC[g._data_location]}
+            twin = copy.deepcopy(g)
+            if op == "shape":
+                base = shp(StructuredGrid.data_shape.fget(twin))
+                stats["memo_hits"] += 0 if before["shape"] is None else 1
+                ret = shp(g.data_shape)
+                reqs.append({"fn": names[0], "args": [before["shape"], base]})
+                expect.append((spec, op, before, {"ok": [ret, shp(g._data_shape)]}))
+                stats["reads_shape"] += 1
+            elif op == "size":
+                base = int(Grid.data_size.fget(twin))
+                stats["memo_hits"] += 0 if before["size"] is None else 1
+                ret = int(g.data_size)
+                reqs.append({"fn": names[1], "args": [before["size"], base]})
+                expect.append((spec, op, before, {"ok": [ret, int(g._data_size)]}))
+                stats["reads_size"] += 1
+            else:
+                new = rng.choice(LOCS)
+                try:
+                    g.data_location = new
+                    want = {"ok": [LOC[g._data_location], [shp(g._data_shape), None if g._data_size is None else int(g._data_size)]]}
+                except Exception as e:  # noqa
+                    want = {"err": err_class(e)}
+                    stats["rejected_sets"] += 1
+                reqs.append({"fn": names[2], "args": [before["loc"], before["shape"], before["size"], LOC[new], valid]})
+                expect.append((spec, op, before, want))
+                stats["sets"] += 1
+    if reqs:
+        for (spec, op, before, want), got in zip(expect, _trdriver(reqs)):
+            if got != want:
+                stats["mismatch"] += 1
+                res.diverge("translation/RectilinearGrid." + op, {"grid": spec, "op": op, "before": before}, want, got)
+    res.extra["translation_validation_grid_memo"] = stats
 
 
 def validate_maskrules(rng, n, res):
